@@ -18,7 +18,7 @@ TABLE_CONSTRUCTS = ["select_order_discrete", "select_order_legacy", "select_empt
                     "pl_ufunc_arity_d", "pl_ufunc_arity_l", "pl_set_cells_d", "pl_set_cells_l", "pl_modify_cells_d",
                     "pl_modify_cells_l", "pl_modify_cell_l", "pl_set_cell_l", "pl_descr_get", "pl_descr_set",
                     "pl_add_layer_d", "pl_remove_layer_d", "pl_add_layer_l", "pl_remove_layer_l", "pl_ext_step_d",
-                    "pl_ext_step_l", "pl_nbhd_mask_d", "pl_nbhd_mask_l"]
+                    "pl_ext_step_l", "pl_nbhd_mask_d", "pl_nbhd_mask_l", "pl_nbhd_mask_h"]
 _PL, _SP, _DS = "mesa/discrete_space/property_layer.py", "mesa/space.py", "mesa/discrete_space/"
 # the source functions Model/PropLayer.v transcribes (harness/fingerprint.py: a change escalates the search)
 SOURCE_FUNCS = [
@@ -31,11 +31,11 @@ SOURCE_FUNCS = [
     (_DS + "cell_agent.py", "HasCell"), (_DS + "cell_agent.py", "BasicMovement"), (_DS + "grid.py", "Grid.__init__"),
     (_DS + "grid.py", "Grid._connect_single_cell_2d"), (_DS + "grid.py", "Grid._connect_single_cell_nd"),
     (_DS + "grid.py", "HexGrid._connect_cells_2d"), (_DS + "cell_agent.py", "CellAgent"),
-    (_PL, "PropertyLayer.aggregate"),
+    (_PL, "PropertyLayer.aggregate"), (_PL, "PropertyLayer.select_cells"),
     (_SP, "PropertyLayer"), (_SP, "_PropertyGrid"), (_SP, "ufunc_requires_additional_input"),
     (_SP, "is_single_argument_function"), (_SP, "_Grid.move_agent"), (_SP, "_Grid.is_cell_empty"),
     (_SP, "SingleGrid.place_agent"), (_SP, "SingleGrid.move_agent"), (_SP, "SingleGrid.remove_agent"),
-    (_SP, "MultiGrid.place_agent"), (_SP, "MultiGrid.remove_agent"),
+    (_SP, "MultiGrid.place_agent"), (_SP, "MultiGrid.remove_agent"), (_SP, "_HexGrid.get_neighborhood_mask"),
 ]
 RULE = ("histories = one grid (discrete: OrthogonalMoore/VonNeumann/Hex, 2-D and 3-D, cell capacity none/1/2; legacy: "
         "SingleGrid, MultiGrid, HexSingleGrid, HexMultiGrid) of at most 12 cells + 6..22 operations out of: create/add/remove layers (incl. clashes, wrong "
@@ -71,8 +71,9 @@ ASSUMPTIONS = [
     "torus; move_relative on Moore, von Neumann and hex grids (hex offset tables re-extracted from grid.py)",
     "order of select_cells' list form is row-major (np.where order), compared in order",
     "get_neighborhood_mask: the neighbourhood itself is C07's / C09's subject; the one the grid reports is handed to the "
-    "model as an outcome (legality-checked: inside the grid); legacy hex grids are skipped (finding C11-5: the inherited "
-    "method passes `moore` to _HexGrid.get_neighborhood -> TypeError)",
+    "model as an outcome (legality-checked: inside the grid); on legacy hex grids it is executed only when "
+    "_HexGrid has its own get_neighborhood_mask(pos, include_center, radius) (fixes/C11-5; before that fix the inherited "
+    "method passes `moore` to _HexGrid.get_neighborhood -> TypeError, finding C11-5)",
     "aggregate: np.sum / np.max / np.min, and np.mean where the number of cells is a power of two (exact division)",
 ]
 E_VALUE, E_KEY, E_INDEX, E_ATTR, E_TYPE, E_EXC = 1, 2, 3, 4, 5, 6
@@ -359,7 +360,10 @@ class _G:
         if r.random() < 0.12:
             ref, h = self.ref()
             if ref is not None:
-                self.ops.append(["agg", ref, r.choice([0, 0, 1, 2, 3])])
+                if r.random() < 0.5:
+                    self.ops.append(["agg", ref, r.choice([0, 0, 1, 2, 3])])
+                else:
+                    self.ops.append(["lsel", ref, self.cond(self.handles[h][1]), r.random() < 0.5])
                 return
         if r.random() < 0.12:
             self.ops.append(["nmask", list(r.choice(self.coords)), r.random() < 0.5, r.choice([1, 1, 2]), r.random() < 0.5])
@@ -544,6 +548,7 @@ def enumerate_cases(tier, broken=False):
                             for ic in (False, True):
                                 ops.append(["nmask", c, ic, 1, True])
                         ops += [["agg", ["n", 1], k] for k in (0, 1, 2, 3)] + [["agg", ["n", 0], 0], *sel]
+                        ops += [["lsel", ["n", 1], [cmpk, 2], al] for cmpk in CMPS for al in (True, False)]
                         yield {"impl": impl, "cls": cls, "dims": list(dims), "cap": 0, "torus": torus, "ops": ops}
                     for cap in (0, 1, 2):
                         ops = [["place", 1, c0], ["place", 2, c0], ["place", 3, c0], *sel, ["place", 4, c1], ["move", 4, c0],
@@ -553,9 +558,7 @@ def enumerate_cases(tier, broken=False):
                         yield {"impl": impl, "cls": cls, "dims": list(dims), "cap": cap, "ops": ops}
             else:
                 for cls in ("SingleGrid", "MultiGrid", "HexSingleGrid", "HexMultiGrid"):
-                    if cls.startswith("Hex"):
-                        masks = []
-                    else:
+                    if True:
                         masks = [["nmask", c, ic, r, mo] for c in coords[:4] for ic in (False, True) for r in (1, 2) for mo in (False, True)]
                     ops = [*masks, ["new", 1, DT_FLOAT, list(dims), 8], ["add", 0], ["agg", ["h", 0], 0], ["agg", ["n", 1], 3],
                            ["place", 1, c0], ["place", 2, c0], ["place", 3, c1], *sel, ["move", 3, c0], ["move", 1, c0],
@@ -906,7 +909,7 @@ def _exc_kind(e):
 SITE = {"add": "add_property_layer", "create": "add_property_layer", "remove": "remove_property_layer",
         "lwrite": "set_cell", "modcell": "modify_cell", "modcells": "modify_cells", "set": "set_cells",
         "setarr": "set_cells", "select": "select_cells", "place": "place_agent", "cellwrite": "cell-write",
-        "move": "move_agent", "mrel": "move_relative", "rm": "remove_agent", "new": "PropertyLayer", "nmask": "get_neighborhood_mask", "agg": "aggregate", "probe": "modify_cells-dtype"}
+        "move": "move_agent", "mrel": "move_relative", "rm": "remove_agent", "new": "PropertyLayer", "nmask": "get_neighborhood_mask", "agg": "aggregate", "probe": "modify_cells-dtype", "lsel": "layer_select_cells"}
 
 
 def run_impl(case):
@@ -1131,17 +1134,24 @@ def run_impl(case):
                 # neighbourhood: it is handed to the model as an outcome), all False when that is empty
                 _, c, ic, r, moore = op
                 c = tuple(c)
-                if c not in R.coords or (case["cls"].startswith("Hex") and not discrete):
-                    # legacy hex grids: finding C11-5 (the inherited method passes `moore` to _HexGrid.get_neighborhood)
+                leg_hex = case["cls"].startswith("Hex") and not discrete
+                if leg_hex:
+                    import mesa.space as _msp
+
+                    hex_own = "get_neighborhood_mask" in vars(_msp._HexGrid)      # fix C11-5 present?
+                if c not in R.coords or (leg_hex and not hex_own):
+                    # legacy hex grids before fix C11-5: the inherited method passes `moore` to _HexGrid.get_neighborhood
                     result = ("skip",)
                 else:
                     if discrete:
                         nb = {tuple(x.coordinate) for x in R.grid._cells[c].get_neighborhood(radius=r, include_center=ic)}
+                    elif leg_hex:
+                        nb = {tuple(int(v) for v in x) for x in R.grid.get_neighborhood(c, ic, r)}
                     else:
                         nb = {tuple(int(v) for v in x) for x in R.grid.get_neighborhood(c, moore, ic, r)}
                     ofm[i]["nb"] = [list(x) for x in sorted(nb)]
                     m = (R.grid.get_neighborhood_mask(c, include_center=ic, radius=r) if discrete
-                         else R.grid.get_neighborhood_mask(c, moore, ic, r))
+                         else (R.grid.get_neighborhood_mask(c, ic, r) if leg_hex else R.grid.get_neighborhood_mask(c, moore, ic, r)))
                     got = {k for k in R.coords if bool(m[k])}
                     if tuple(m.shape) != R.dims or got != nb or m.dtype.kind != "b":
                         R.fail("get_neighborhood_mask/wrong-mask", i,
@@ -1172,6 +1182,26 @@ def run_impl(case):
                         R.fail("aggregate/wrong-value", i,
                                f"{op}: {['sum', 'max', 'min', 'mean'][akind]} over layer {Lr.name!r} gives {r!r} (= {gotl} in layer units), the values {vals} give {exp}")
                     result = ("ok", gotl)
+            elif kind == "lsel":
+                # PropertyLayer.select_cells(condition, return_list): one layer, the condition applied to its array
+                _, ref, cd, aslist = op
+                Lr = R.resolve(ref)
+                if Lr is None:
+                    result = ("skip",)
+                else:
+                    hi = R.hindex(Lr)
+                    dt = R.sh_dt[hi]
+                    cf = _mk_cond(dt, cd)
+                    got_l = [tuple(int(x) for x in c) for c in Lr.select_cells(cf, return_list=True)]
+                    got_m = np.asarray(Lr.select_cells(cf, return_list=False)).astype(bool)
+                    keys = list(R.sh[hi])
+                    exp = [c for c in keys if _cond_z(cd, R.sh[hi][c])]
+                    gm = [c for c in keys if got_m[c]] if tuple(got_m.shape) == tuple(R.sh_dims[hi]) else None
+                    if got_l != exp or gm != exp:
+                        R.fail("layer_select_cells/wrong-cells", i,
+                               f"{op}: PropertyLayer.select_cells on {Lr.name!r}: list form {got_l}, mask form {gm}, the cells satisfying the condition are {exp}")
+                    result = ("ok", ([len(got_l)] + [x for c in got_l for x in c]) if aslist
+                              else ([int(got_m[c]) for c in keys] if gm is not None else [-5]))
             elif kind == "probe":
                 # the dtype modify_cells leaves behind on a fresh 2x2 layer of dtype ldt for an operand of dtype vdt
                 _, ldt, form, f, vdt = op
@@ -1397,6 +1427,8 @@ def _op(case, op, extra=None):
         if op[2] == 3 and n & (n - 1):
             return "Skip"
         return f"Aggregate {_ref(op[1])} {L.z(op[2])}"
+    if k == "lsel":
+        return f"LayerSelect {_ref(op[1])} {_cond(op[2])} {L.b(op[3])}"
     if k == "probe":
         f = [*op[3][:2], op[4]] if len(op[3]) > 1 else op[3]
         return f"ProbeDtype {L.z(op[1])} {FORM[op[2]]} ({_fop(f, op[1])}) {L.z(op[4])}"
